@@ -82,3 +82,36 @@ fn c33_q_multinomial_seed_deterministic() {
     kani::cover!(a.is_some(), "sampled");
     assert!(a == b);
 }
+
+/// Exact specification of `multinomial`: with `t` the generator's first draw for
+/// the seed, the result is the smallest index whose running f32 sum (left to
+/// right) exceeds `t`, or None if there is none.
+#[kani::proof]
+#[kani::unwind(6)]
+fn c33_q_multinomial_matches_reference_n3() {
+    let probs: [f32; 3] = kani::any();
+    let mut i = 0;
+    while i < 3 {
+        kani::assume(probs[i] >= 0.0 && probs[i] <= 1.0);
+        i += 1;
+    }
+    let seed: u64 = kani::any();
+    let mut rng = fastrand::Rng::with_seed(seed);
+    let mut rng_ref = fastrand::Rng::with_seed(seed);
+    let got = multinomial(&mut rng, &probs);
+    let t = rng_ref.f32();
+    assert!(t >= 0.0 && t < 1.0);
+    let mut expect: Option<usize> = None;
+    let mut cum = 0.0f32;
+    let mut k = 0;
+    while k < 3 {
+        cum += probs[k];
+        if expect.is_none() && t < cum {
+            expect = Some(k);
+        }
+        k += 1;
+    }
+    kani::cover!(expect == Some(1), "middle candidate sampled");
+    kani::cover!(expect.is_none(), "draw beyond the probability mass");
+    assert!(got == expect, "multinomial differs from its specification");
+}
